@@ -232,9 +232,11 @@ def rtruediv (R : Registry) (m : Mode) (x : Rat) (a : Qty) : Except Err Qty :=
 
 /-- operands of `//`, `%` and `divmod` (F58 repair): quantities on an offset scale are refused, or taken to root
     units first in autoconvert mode, as for true division -/
+def operandsMult (R : Registry) (a : Qty) (b : Operand) : Bool :=
+  R.isMultQ a && (match b with | .q b => R.isMultQ b | .num _ => true)
+
 def offsetFree (R : Registry) (m : Mode) (a : Qty) (b : Operand) : Except Err (Qty × Operand) :=
-  let allMult := R.isMultQ a && (match b with | .q b => R.isMultQ b | .num _ => true)
-  if allMult then .ok (a, b)
+  if R.operandsMult a b then .ok (a, b)
   else if !m.autoconvert then .error .offsetCalc
   else match R.toRoot m a with
     | .error e => .error e
